@@ -155,24 +155,24 @@ def run(ck):
                 call(it, lst, ev, *args)
                 return args
 
-            p = single(paths_of(prog, th), inst)
-            args = p.value
-            seq = []
-            for e in p.effects:
-                if e.kind == "ext-call" and isinstance(e.detail, tuple):
-                    seq.append(e.detail[1])
-            want = ["cb%d.%s" % (i, ev) for i in range(3)]
-            ck.check(seq == want, "C12.R4", inst + ":order", m.site(), "dispatch calls %s; expected %s" % (seq, want))
-            # argument forwarding from the call records
-            fw = [c for c in p.interp.effects if c.kind == "ext-call"]
-            okargs = True
-            for e in p.effects:
-                pass
-            recs = [u for u in _opaque_calls(p)]
-            for tag, a in recs:
-                if a[len(a) - len(args):] != args:
-                    okargs = False
-            ck.check(okargs and len(recs) == 3, "C12.R4", inst + ":arguments", m.site(), "arguments are not forwarded unchanged to every callback")
+            for p in returning(paths_of(prog, th), inst):
+                args = p.value
+                seq = []
+                for e in p.effects:
+                    if e.kind == "ext-call" and isinstance(e.detail, tuple):
+                        seq.append(e.detail[1])
+                want = ["cb%d.%s" % (i, ev) for i in range(3)]
+                ck.check(seq == want, "C12.R4", inst + ":order", m.site(), "dispatch calls %s; expected %s" % (seq, want))
+                # argument forwarding from the call records
+                fw = [c for c in p.interp.effects if c.kind == "ext-call"]
+                okargs = True
+                for e in p.effects:
+                    pass
+                recs = [u for u in _opaque_calls(p)]
+                for tag, a in recs:
+                    if a[len(a) - len(args):] != args:
+                        okargs = False
+                ck.check(okargs and len(recs) == 3, "C12.R4", inst + ":arguments", m.site(), "arguments are not forwarded unchanged to every callback")
     lam = prog.cls("LambdaCallback")
     with ck.guard("C12.R4", "LambdaCallback"):
         def th2(it):
